@@ -25,6 +25,8 @@ TARGETS = [
     ('amqpstorm/channel.py', 'Channel', 'check_for_errors'),
     ('amqpstorm/basic.py', 'Basic', 'publish'),
     ('amqpstorm/basic.py', 'Basic', '_publish_confirm'),
+    ('amqpstorm/base.py', 'BaseChannel', 'add_consumer_tag'),
+    ('amqpstorm/base.py', 'BaseChannel', 'remove_consumer_tag'),
 ]
 
 LOCKS = {  # (receiver tail, attribute) -> lock id
@@ -104,6 +106,8 @@ def call_id(call, cls):
         return 'KChannelOpen'
     if name == 'register_write':
         return 'KRegisterWrite'
+    if name in ('append', 'remove') and recv == '_consumer_tags':
+        return 'KTagsInPlace'
     return 'KOther'
 
 
@@ -161,6 +165,8 @@ class Walker(object):
             for t in targets:
                 if isinstance(t, ast.Subscript) and dotted(t.value)[-1] == '_channels':
                     self.emit('TCall KStoreChannel')
+                if isinstance(t, ast.Attribute) and t.attr == '_consumer_tags':
+                    self.emit('TCall KTagsRebind')
         elif isinstance(s, ast.With):
             ids = []
             for item in s.items:
